@@ -1803,7 +1803,9 @@ class UTPM(Ring, RawAlgorithmsMixIn):
         """ extracts the Jacobian vector product from a UTPM instance
         if x.ndim == 1 it is equivalent to the gradient
         """
-        return x.data[1,...].transpose([i for i in range(1,x.data[1,...].ndim)] + [0])[:,0]
+        # the first order coefficient of the single direction, whatever the shape of the value of
+        # the program (a scalar, a vector, a matrix)
+        return x.data[1,0,...]
 
 
     @classmethod
